@@ -30,38 +30,38 @@ def declare(reg, eng):
 
     # ---- spec functions
     def sf_disk_sum(e, st, a):          # disk_sum(dir): sum of the counts of the *.token files of dir, in the current fs
-        return V(IntV(DS(st.field("$fs_kind"), st.field("$fs_text"), Val.p(a[0].t))), "int")
+        return V(IntV(DS(st.field("$fs_kind"), st.field("$fs_text"), vp(a[0].t))), "int")
 
     def sf_tokcount(e, st, a):
-        return V(IntV(tokcount(Val.s(a[0].t))), "int")
+        return V(IntV(tokcount(vs(a[0].t))), "int")
 
     def sf_toksum(e, st, a):            # toksum(files, i): sum over files[:i] of tokcount(text(files[k])), unfolded at i
-        seq = e.elems(st, a[0]); i = Val.i(a[1].t); text = st.field("$fs_text")
+        seq = e.elems(st, a[0]); i = vi(a[1].t); text = st.field("$fs_text")
         st.assume(tok_sum(seq, 0, text) == 0)
-        st.assume(z3.Implies(i >= 0, tok_sum(seq, i + 1, text) == tok_sum(seq, i, text) + tokcount(z3.Select(text, Val.p(seq[i])))))
+        st.assume(z3.Implies(i >= 0, tok_sum(seq, i + 1, text) == tok_sum(seq, i, text) + tokcount(z3.Select(text, vp(seq[i])))))
         for f in st.pc[-2:]:
             if f.get_id() not in e._gf_ids:
                 e._gf_ids.add(f.get_id()); e.global_facts.append(f)
         return V(IntV(tok_sum(seq, i, text)), "int")
 
     def sf_held(e, st, a):              # held(p): count recorded in the token file p, 0 when absent
-        return V(IntV(held(st.field("$fs_kind"), st.field("$fs_text"), Val.p(a[0].t))), "int")
+        return V(IntV(held(st.field("$fs_kind"), st.field("$fs_text"), vp(a[0].t))), "int")
 
     def sf_tokenfile_text(e, st, a):    # text written by TokenFile.create
-        return V(StrV(z3.Concat(str_of_int(Val.i(a[0].t)), z3.StringVal("\n"), Val.s(a[1].t), z3.StringVal("\n"))), "str")
+        return V(StrV(z3.Concat(str_of_int(vi(a[0].t)), z3.StringVal("\n"), vs(a[1].t), z3.StringVal("\n"))), "str")
 
     reg.specfuns.update(disk_sum=sf_disk_sum, tokcount=sf_tokcount, toksum=sf_toksum, held=sf_held, tokenfile_text=sf_tokenfile_text)
 
     # ---- assumed finite-sum facts, instantiated where the filesystem changes or is enumerated
     def glob_hook(e, st, res, d, patv):
-        pat = z3.simplify(Val.s(patv.t))
+        pat = z3.simplify(vs(patv.t))
         if z3.is_string_value(pat) and pat.as_string() == "*.token":
             kind, text = st.field("$fs_kind"), st.field("$fs_text")
             st.assume(tok_sum(res, z3.Length(res), text) == DS(kind, text, d))     # (A1) enumeration = disk sum
             k = fresh_int("k")                                                      # (E1) *.token entries are regular files
-            st.assume(qforall([k], z3.Implies(z3.And(0 <= k, k < z3.Length(res)), z3.Select(kind, Val.p(res[k])) == 1), patterns=[res[k]]))
+            st.assume(qforall([k], z3.Implies(z3.And(0 <= k, k < z3.Length(res)), z3.Select(kind, vp(res[k])) == 1), patterns=[res[k]]))
             e.seq_facts.setdefault(res.decl().name(), []).append(
-                lambda j: z3.Implies(z3.And(0 <= j, j < z3.Length(res)), z3.Select(kind, Val.p(res[j])) == 1))
+                lambda j: z3.Implies(z3.And(0 <= j, j < z3.Length(res)), z3.Select(kind, vp(res[j])) == 1))
     eng.glob_hooks.append(glob_hook)
 
     def fs_write_hook(e, st, p, old_kind, old_text):
